@@ -1361,6 +1361,12 @@ Hwrite(int32 access_id, int32 length, const void *data)
     if (HTPinquire(access_rec->ddid, NULL, NULL, &data_off, &data_len) == FAIL)
         HGOTO_ERROR(DFE_INTERNAL, FAIL);
 
+    /* element positions, lengths and file offsets are 32-bit signed: refuse a
+       write that would end beyond 2^31-1 */
+    if (length > (int32)0x7fffffff - access_rec->posn ||
+        (data_off > 0 && access_rec->posn + length > (int32)0x7fffffff - data_off))
+        HGOTO_ERROR(DFE_RANGE, FAIL);
+
     /* check validity of length and write data.
      NOTE: it is an error to attempt write past the end of the elt */
     if (length <= 0 || (!access_rec->appendable && length + access_rec->posn > data_len))
